@@ -183,6 +183,10 @@ def execOp (chk : Bool) (tok : List String) : String :=
           | none => "none"
           | some (cf, cg) => s!"{cf} {cg}")
       | _, _ => "bad-op"
+  | ["karatsuba", a, b] =>
+      let a := parseInts a; let b := parseInts b
+      if a.length == b.length && RingZ.karatsubaOk a.length a.length then renderInts (RingZ.karatsuba a b) else "skip"
+  | ["reduce_cyc", n, p] => renderInts (RingZ.reduceCyc (parseNat n) (parseInts p))
   | ["field_norm", f] => let f := parseInts f; renderInts (RingZ.fieldNorm f.length f)
   | ["lift_poly", f] => renderInts (RingZ.lift (parseInts f))
   | ["galois_adjoint", f] => renderInts (RingZ.adjoint (parseInts f))
